@@ -185,6 +185,7 @@ Theorem C18_update_fresh_params :
             (forall p g : arr F,
              h_arr s h = Some p ->
              grad_of s h = Some g ->
+             ~ In (e_node h) (map e_node (firstn i (model_params s))) ->
              exists (h' : handle) (nd' : gnode),
                nth_error (model_params s') i = Some h' /\
                length (st_nodes s) <= e_node h' /\
